@@ -88,6 +88,12 @@ def worlds(tier):
                 yield mk(seed, trio_names, [g1, g2], support, None, {})
             if T:
                 yield mk(seed, trio_names, [g1, g2], "all", None, dict(genetic_haplotyping=False))
+            # a PED record naming an individual that is not in the VCF, listed before the trio; an unrelated sample in
+            # the VCF whose genotype is missing at the first variant
+            yield mk(seed, trio_names, [g1, g2], "none", None, {}, absent_first=True)
+            yield mk(seed, trio_names, [g1, g2], "none", None, {}, bystander=True)
+            if T or (combos.index(g1) + combos.index(g2)) % 3 == 0:
+                yield mk(seed, trio_names, [g1, g2], "all", None, {}, absent_first=True, bystander=True)
     # k = 3: at most one non-heterozygous member per variant; with a paternal recombination
     per_variant = [("0/1", "0/1", "0/1")]
     for member in range(3):
@@ -133,7 +139,7 @@ def worlds(tier):
                     yield mk(seed, qnames, [g1, g2], support, None, {}, ped_reversed=rev)
 
 
-def mk(seed, names, gts, support, recomb, opts, ped_reversed=False):
+def mk(seed, names, gts, support, recomb, opts, ped_reversed=False, absent_first=False, bystander=False):
     k = len(gts)
     nchildren = len(names) - 2
     haps = family_haps(gts, nchildren, recomb)
@@ -147,6 +153,12 @@ def mk(seed, names, gts, support, recomb, opts, ped_reversed=False):
     trios = [(c, names[0], names[1]) for c in names[2:]]
     if ped_reversed:
         trios = trios[::-1]
+    if absent_first:
+        trios = [("sis", names[0], names[1])] + trios
+    if bystander:
+        world["samples"] = list(names) + ["X"]
+        world["bystanders"] = ["X"]
+        world["haps"]["X"] = {"chrA": ["miss"] + [[0, 1]] * (k - 1)}
     return {"world": world, "trios": [list(t) for t in trios], "opts": opts, "support": support}
 
 
@@ -162,7 +174,7 @@ def judge(inst):
     for f in os.listdir(d):
         os.unlink(os.path.join(d, f))
     world, trios, opts = inst["world"], [tuple(t) for t in inst["trios"]], dict(inst["opts"])
-    names = world["samples"]
+    names = [n for n in world["samples"] if n not in world.get("bystanders", [])]
     viols = []
     conv = {}
 
